@@ -60,6 +60,11 @@ ObjComplaints(m, ob, involved, e) ==
                 {<<"C05", "an exposed slice does not lie in a live chunk or a lent buffer">>})
       \cup When(\E i \in 1..Len(ob.proj.slices) : ob.proj.slices[i][1] = -2,
                 {<<"C05", "a buffered (not yet exposed) slice does not lie in a live chunk or a lent buffer">>})
+      \* bytes that were read (and right) at the last observation are different now, although nothing was filled in: the
+      \* memory behind them was handed out a second time (distinct owned allocations overlap)
+      \cup (LET k == IF m.seen < sbytes THEN m.seen ELSE sbytes IN
+            When(ob.dangling = 0 /\ k > 0 /\ RLTake(ob.sb, k) # RLTake(m.buf, k),
+                 {<<"C05", "bytes that were readable before changed in place: their memory was handed out again">>}))
   IN core \cup c04 \cup c05
      \cup (IF ~involved /\ (core \cup c04 \cup c05) # {}
            THEN {<<"C20", "an operation on another object changed (or invalidated) this one">>} ELSE {})
@@ -88,7 +93,12 @@ WithLens(w2, e) ==
   IF e.obs_panic # "" THEN w2
   ELSE [w2 EXCEPT !.objs = [o \in DOMAIN w2.objs |->
           LET I == {i \in 1..Len(e.obs) : e.obs[i].o = o} IN
-          IF I = {} THEN w2.objs[o] ELSE [w2.objs[o] EXCEPT !.lens = e.obs[CHOOSE i \in I : TRUE].lens]]]
+          IF I = {} THEN w2.objs[o]
+          ELSE LET ob == e.obs[CHOOSE i \in I : TRUE]
+                   n == RLBytes(ob.sb)
+               IN [w2.objs[o] EXCEPT !.lens = ob.lens,
+                                     !.seen = IF ob.dangling = 0 /\ n <= RLBytes(w2.objs[o].buf) /\ ob.sb = RLTake(w2.objs[o].buf, n)
+                                              THEN n ELSE 0]]]
 
 ConsumerComplaints(e) ==
   IF e.skip = 1 THEN {} ELSE
